@@ -119,6 +119,10 @@ def rule_nitb(ctx: Ctx) -> List[Ob]:
                 ok = how == "aug" and isinstance(n.ast, ast.AugAssign) and isinstance(n.ast.op, ast.Add) and \
                     isinstance(n.ast.value, ast.Constant) and n.ast.value.value == 1 and \
                     len(n.loops) == 1
+                if not ok and how == "bind" and v is not None and len(n.loops) == 1:
+                    from ..flow import Expander
+                    ev = Expander(ctx, mm.f).expand(n, v, 4)
+                    ok = src(ev).replace(" ", "") in (f"{nit}+1", f"1+{nit}")
                 inc_nodes.append(n)
                 obs.append(ob("NITB", "in-loop write of the iteration counter is `+= 1`", mm.f, n.ast, ok,
                               "increment by one per cycle" if ok else "the counter is not advanced by exactly one"))
@@ -278,6 +282,9 @@ def rule_retry(ctx: Ctx) -> List[Ob]:
         swapped = (op is ast.NotEq and c == 1) or (op is ast.Gt and c == 1) or (op is ast.GtE and c == 2)
         abort, retry = (dec.body, dec.orelse) if one_point else (dec.orelse, dec.body)
         one_point = one_point or swapped
+        if not retry and any(isinstance(x, ast.Break) for x in abort):
+            # `if one point: abort; break` followed by the retry statements (no else needed after a break)
+            retry = failed[failed.index(dec) + 1:]
     else:
         abort, retry = dec.body, dec.orelse
     obs.append(ob("RETRY", "abort is conditional on the memory holding exactly one point", mm.f, dec, one_point,
